@@ -106,8 +106,10 @@ def _reg(draw, idx: int, offset: int, width: int, want_fields: bool, zero_reset:
                 kind = draw(st.sampled_from(["plain", "plain", "enum", "enum", "shift"]))
                 if kind == "enum":
                     n = draw(st.integers(1, 4))
+                    dup_names = draw(st.integers(0, 3)) == 0  # the database reuses names such as "Reserved"/"Disable" for several values
                     for j in range(n):
-                        f["enums"].append(["F%d_E%d" % (k, j), draw(st.integers(0, (1 << w) - 1)), draw(st.sampled_from(["int", "hex", "bin", "dec"]))])
+                        nm = "F%d_E%d" % (k, draw(st.integers(0, j)) if dup_names else j)
+                        f["enums"].append([nm, draw(st.integers(0, (1 << w) - 1)), draw(st.sampled_from(["int", "hex", "bin", "dec"]))])
                 elif kind == "shift" and w >= 2:
                     f["shift"] = draw(st.sampled_from([1, 2, 8]))
                 fields.append(f)
@@ -452,8 +454,8 @@ def _layout_usable(lay: dict) -> str:
             fr = f["reset"]
             if fr and (f["shift"] or fr >> f["width"] or (r["reset"] and (r["reset"] >> f["off"]) & ((1 << f["width"]) - 1) != fr)):
                 return "inconsistent reset values"
-            if any(v >> (f["width"] + f["shift"]) for _, v in f["enums"]) or len({n for n, _ in f["enums"]}) != len(f["enums"]):
-                return "enum outside the field / duplicate enum names"
+            if any(v >> (f["width"] + f["shift"]) for _, v in f["enums"]):
+                return "enum value outside the field"
     for g in lay["groups"]:
         ws = {lay["regs"][i]["width"] for i in g["subs"]}
         if len(ws) != 1:
@@ -579,13 +581,12 @@ def _observe(ob: _Obj, m: MFile, full: bool = True) -> list:
                 if fv != f.read():
                     out.append(("field", i, k, "field_value", fv, f.read()))
                 elif full:
+                    # the enum view names the current value (any enum carrying that value) or prints it as a number
                     ev = bf.get_enum_value()
-                    en = f.enum_name()
-                    if en is not None:
-                        if ev != en:
-                            out.append(("field", i, k, "enum_value", ev, en))
-                    elif not isinstance(ev, str) or _hexint(ev) != f.read():
-                        out.append(("field", i, k, "enum_value", ev, hex(f.read())))
+                    if isinstance(ev, str) and any(n == ev and v == f.read() for n, v in f.enums):
+                        pass
+                    elif not isinstance(ev, str) or any(n == ev for n, _ in f.enums) or _hexint(ev) != f.read():
+                        out.append(("field", i, k, "enum_value", ev, f.enum_name() or hex(f.read())))
         except _Hang:
             raise
         except Exception as exc:  # noqa: BLE001
